@@ -3,7 +3,7 @@ import os, sys, time
 from concurrent.futures import ThreadPoolExecutor
 from . import build, harness
 
-HARNESSES = ["h_uf"]
+HARNESSES = ["h_uf", "h_orw"]
 
 
 def all_harness_items():
